@@ -242,9 +242,10 @@ class TFReplayer:
             merge_dims=extra.get("merge_dims", 2),
             second_order_type=second_order.SecondOrderType.SKETCHY,
             shampoo_options=None,
-            sketchy_options=sketchy.Options(rank=extra.get("rank", 2),
-                                            update_freq=S,
-                                            second_moment_decay=0.5))
+            sketchy_options=sketchy.Options(
+                rank=extra.get("rank", 2), update_freq=S,
+                second_moment_decay=0.5,
+                ekfac_svd=extra.get("ekfac_svd", False)))
       mo = momentum.Options(momentum_decay=0.0, weight_decay=0.0)
       return tf.tearfree(0.5, tf.TearfreeOptions(go, so, mo))
 
